@@ -35,7 +35,10 @@ CLAIMED = {
         "process group; any number of callers of one environment behind its mutex.  Theorems (invariants by induction over the schedule): "
         "C17_fd_noninterference (the table a launched program inherits holds no descriptor of another goroutine), "
         "C17_no_reader_while_cloning, C17_wait_disjoint, C17_env_mutual_exclusion, C17_env_serialised (the protocol steps on the socket are "
-        "a sequence of whole calls, i.e. a history of the C10 LTS).  Tie on every run: 6 sets of 16 workloads mixing ptrace, namespace and "
+        "a sequence of whole calls, i.e. a history of the C10 LTS).  Launch/ParentFds.v: the descriptor events of the launching side of Start for every "
+        "configuration and outcome; C17_start_keeps_descriptor_discipline, C17_disciplined_starts_never_hit_foreign_numbers (any number of starts, any "
+        "interleaving, any allocation of free numbers: no close or use hits a number that is not the acting start's own), C17_merged_labels_refuted; "
+        "the traced events of 19 real starts are compared with the model in Coq.  Tie on every run: 6 sets of 16 workloads mixing ptrace, namespace and "
         "container runs (3 environments, concurrent calls on one of them, cancelled and signalled programs, process trees) run one by one "
         "and all at once in one host process with 8 background goroutines creating inheritable descriptors under the RLock protocol: "
         "verdict, exit value and the descriptor table reported by each program must be identical, and nothing may hang.  Also: three users of ONE environment opening and reading back their own file with Pings in between; a freshly written executable run through its descriptor next to a launch that overlapped its writing.",
